@@ -782,6 +782,9 @@ func (r Condition) Valid() (err error) {
 				return
 			}
 		}
+	} else {
+		err = errorf("operator value is nil")
+		return
 	}
 
 	// verify expression value
